@@ -82,6 +82,10 @@ fn from_nix_error(err: nix::Error) -> ::std::io::Error {
     std::io::Error::from_raw_os_error(err as i32)
 }
 
+// what an expired timer that found no coroutine leaves in `io_flag`, not an epoll event bit
+#[cfg(feature = "io_timeout")]
+const TIMER_MARK: usize = 1 << (usize::BITS - 1);
+
 #[cfg(feature = "io_timeout")]
 fn timeout_handler(data: TimerData) {
     if data.event_data.is_null() {
@@ -91,6 +95,12 @@ fn timeout_handler(data: TimerData) {
     let event_data = unsafe { &mut *data.event_data };
     // remove the event timer
     event_data.timer.borrow_mut().take();
+
+    // the coroutine may not be stored yet: its subscriber armed this timer and was held up
+    // since then. leave a mark first, like the selector does for an event, so that the
+    // re-check of `io_flag` after the store runs the coroutine again if we miss it here,
+    // it then arms a new timer
+    event_data.io_flag.fetch_or(TIMER_MARK, Ordering::Release);
 
     // get and check the coroutine
     let mut co = match event_data.co.take() {
@@ -165,39 +175,6 @@ impl EventData {
 
         // schedule the coroutine
         get_scheduler().schedule(co);
-    }
-
-    /// used by `subscribe` right after the coroutine is stored, `deadline` is what
-    /// `add_io_timer` returned. If the subscribing thread was held up for longer than
-    /// the timeout, the timer may have fired already and found no coroutine to wake,
-    /// do the timeout ourselves then. Return true if the deadline has passed, the
-    /// caller must not touch the io any more in that case
-    #[cfg(feature = "io_timeout")]
-    #[inline]
-    pub fn timed_out_while_arming(&self, deadline: Option<u64>) -> bool {
-        match deadline {
-            Some(t) if crate::timeout_list::now() >= t => {}
-            _ => return false,
-        }
-
-        let mut co = match self.co.take() {
-            Some(co) => co,
-            None => return true, // it's already take by selector
-        };
-
-        // the timer entry may still be pending, remove it as `fast_schedule` does
-        self.timer.borrow_mut().take().map(|h| {
-            unsafe {
-                h.with_mut_data(|value| value.data.event_data = std::ptr::null_mut());
-            }
-            h.remove()
-        });
-
-        set_co_para(&mut co, io::Error::new(io::ErrorKind::TimedOut, "timeout"));
-
-        // resume the coroutine with timeout error
-        run_coroutine(co);
-        true
     }
 
     /// used by local re-schedule that in `subscribe`
